@@ -171,10 +171,10 @@ func (a Anno) renderGenbank() string {
 // ---- GFF3 rendering --------------------------------------------------------------------------------
 
 type gffOpts struct {
-	SpecPhases     bool `json:"spec_phases"`      // continuation rows carry the GFF3-spec phase (else 0)
-	SequenceRegion bool `json:"sequence_region"`  // emit ##sequence-region
-	WithFasta      bool `json:"with_fasta"`       // emit ##FASTA section
-	GeneRows       bool `json:"gene_rows"`        // emit extra non-CDS rows (gene), which must be ignored
+	SpecPhases     bool `json:"spec_phases"`     // continuation rows carry the GFF3-spec phase (else 0)
+	SequenceRegion bool `json:"sequence_region"` // emit ##sequence-region
+	WithFasta      bool `json:"with_fasta"`      // emit ##FASTA section
+	GeneRows       bool `json:"gene_rows"`       // emit extra non-CDS rows (gene), which must be ignored
 }
 
 func (a Anno) renderGFF(o gffOpts) string {
